@@ -1598,7 +1598,7 @@ def run(ctx):
     pv = [v for v in ctx.violations if v.get("case", {}).get("kind") == "prog"]
     ov = [v for v in ctx.violations if v.get("case", {}).get("kind") != "prog"]
     ov = [v for v in ov if v not in scale_viol]
-    ctx.violations[:] = scale_viol[:5] + pv[:5] + ov[:5]
+    ctx.violations[:] = scale_viol[:3] + pv[:(5 if not scale_viol else 3)] + ov[:(5 if not scale_viol else 2)]
     styles = {}
     for p in progs:
         styles[p.get("style")] = styles.get(p.get("style"), 0) + 1
